@@ -108,3 +108,25 @@ Example C14_ex_checksum_roundtrip :
   parse_at c [] [x01; x02; x07; x06] 0 = Err EChecksum (Some [[x63]]).
 Proof. split; vm_compute; reflexivity. Qed.
 ''')
+
+PROPS['C11'] = dict(
+    title='C11 - context expressions mean what their Python spelling means, and print as it',
+    requires_gen=['ExprTable'],
+    theorems=[
+        ('ExprFacts', 'table_binops', 'The overload table REGENERATED from construct/expr.py (gen/ExprTable.v) is, as a set, the table Python\'s data model prescribes: each dunder builds its own operator, reflected variants put self on the right.'),
+        ('ExprFacts', 'table_unops', 'Unary overloads: __neg__, __pos__, and __invert__ as the documented logical not.'),
+        ('ExprFacts', 'table_binop_names', 'Every binary operator prints as its own Python symbol (regenerated opnames).'),
+        ('ExprFacts', 'table_unop_names', 'Every unary operator prints as its own Python symbol.'),
+        ('ExprFacts', 'table_repr_templates', 'The __repr__ templates of UniExpr / BinExpr in the source are the parenthesising ones.'),
+        ('ExprFacts', 'eval_binop_native', 'A binary node denotes the native operator applied to its operands\' values in the same context.'),
+        ('ExprFacts', 'eval_unop_native', 'A unary node likewise.'),
+        ('ExprFacts', 'eval_item_native', 'Item / attribute paths denote plain subscripting.'),
+        ('ExprFacts', 'reflected_sub_order', 'Reflected operands keep their order: constant - expression subtracts in that order.'),
+        ('ExprFacts', 'floordiv_mod_python', 'Integer // and % are Python\'s (floor division; sign of the divisor).'),
+    ],
+    examples='''
+Example C11_ex_eval :
+  eval (top_ctx [([x61], VInt (-3))] MParse) (XBin OPow (XUn UNeg (XItem (XRoot RThis) (KName [x61]))) (XConst (VInt 2))) = Ok (VInt 9) /\\
+  eval (top_ctx [([x61], VInt 7)] MParse) (XBin OSub (XConst (VInt 1)) (XBin OFloorDiv (XItem (XRoot RThis) (KName [x61])) (XConst (VInt (-2))))) = Ok (VInt 5).
+Proof. split; vm_compute; reflexivity. Qed.
+''')
